@@ -11,7 +11,7 @@
 (*     taken, which verdict it gets, what ends up in which batch, which    *)
 (*     errors reach the error handler; when a batch is cut is left open.   *)
 (* CheckErrors = FALSE: calls of the error handler are not judged (C01,    *)
-(*     C02); TRUE (C15): each must be the spec's next ErrHookStep.         *)
+(*     C02); TRUE (C15): each must be the spec's next step of the hook.    *)
 (***************************************************************************)
 EXTENDS ActionWorker, Json, IOUtils
 
@@ -28,7 +28,6 @@ OutDone == oi = Len(W.out)
 Match(r, x) ==
     /\ r.e = x.e /\ r.id = x.id /\ r.a = x.a /\ r.x = x.x
     /\ x.e = "handler_in" => r.pending = x.ids
-    /\ x.e = "error" => r.n = x.n          \* which error handler (generation) was called
 
 Choices == IF Timed THEN {"auto"} ELSE {"wait", "enter"}
 
@@ -82,7 +81,6 @@ TStep ==
        \/ \E c \in Choices : ErrSendComplete(r.t, c)
        \/ \E c \in Choices : TimeoutStep(r.t, c)
        \/ HandlerReturn(r.t)
-       \/ ErrHookStep(r.t)
     /\ Len(W'.out) > 0
     /\ Match(r, W'.out[1])
     /\ oi' = 1
@@ -99,15 +97,34 @@ TConsume ==
     /\ oi' = oi + 1
     /\ UNCHANGED <<evs, cap, ecap, queue, pending, errq, W, main, hist, mainSeen>>
 
-\* error-handler calls when they are not being judged: consumed, and the spec's hook follows suit
+\* The error hook's two observations (err_recv: it has received the next error; error: the handler is
+\* called with it).  The hook is a task of its own: they may fall between the observations of a worker step.
+\* Judged (C15): they must be the spec's ErrHookTake / ErrHookCall.
+THookTake ==
+    LET r == Rec[l] IN
+    /\ CheckErrors
+    /\ r.e = "err_recv" /\ r.t >= now
+    /\ ErrHookTake(r.t)
+    /\ UNCHANGED <<oi, mainSeen>>
+
+THookCall ==
+    LET r == Rec[l] IN
+    /\ CheckErrors
+    /\ r.e = "error" /\ r.t >= now
+    /\ W.hookCur # 0
+    /\ LET x == HookObs(W.hookCur) IN r.id = x.id /\ r.a = x.a /\ r.n = x.n
+    /\ ErrHookCall(r.t)
+    /\ UNCHANGED <<oi, mainSeen>>
+
+\* Not judged (C01, C02): consumed, and the spec's error channel follows suit
 TErrorFree ==
     LET r == Rec[l] IN
     /\ ~CheckErrors
-    /\ r.e = "error" /\ r.t >= now
-    /\ now' = r.t            \* the error hook is another task: it may run wherever the worker yields
+    /\ r.e \in {"err_recv", "error"} /\ r.t >= now
+    /\ now' = r.t
     /\ main = "run"
-    /\ errq' = IF errq # <<>> THEN Tail(errq) ELSE errq     \* not judged here: C15 does that
-    /\ main' = IF r.a \in {"elevate", "critical"} THEN "failing" ELSE "run"
+    /\ errq' = IF r.e = "err_recv" /\ errq # <<>> THEN Tail(errq) ELSE errq     \* not judged here: C15 does that
+    /\ main' = IF r.e = "error" /\ r.a \in {"elevate", "critical"} THEN "failing" ELSE "run"
     /\ UNCHANGED <<evs, cap, ecap, queue, pending, W, hist, oi, mainSeen>>
 
 \* the embedding program changes the throttle (config.throttle()) from outside the handler
@@ -136,11 +153,10 @@ TEnd ==
     /\ main # "run" => (mainSeen /\ main # "failing")
     /\ UNCHANGED <<evs, cap, ecap, queue, pending, errq, W, main, hist, oi, mainSeen>>
 
-\* judged error-handler calls are W.out observations of ErrHookStep (TStep); unjudged ones:
 TraceNext ==
     /\ l <= Len(Rec)
     /\ l' = l + 1
-    /\ (TReset \/ TSend \/ TSent \/ TSendErr \/ TStep \/ TConsume \/ TErrorFree \/ TThrottleEnv \/ TMainEnd \/ TEnd)
+    /\ (TReset \/ TSend \/ TSent \/ TSendErr \/ TStep \/ TConsume \/ THookTake \/ THookCall \/ TErrorFree \/ TThrottleEnv \/ TMainEnd \/ TEnd)
 
 TraceSpec == TraceInit /\ [][TraceNext]_tvars
 
